@@ -65,7 +65,12 @@ def read_config(path, error_out=None):
         printerr(f"WARNING: could not open config file '{path}'.")
         return
     with f:
-        for line in f.readlines():
+        try:
+            lines = f.readlines()
+        except OSError:
+            printerr(f"WARNING: could not read config file '{path}'.")
+            return
+        for line in lines:
             # Only the first '=' separates name from value.
             items = line.split("=", 1)
             if len(items) < 2:
